@@ -12,7 +12,7 @@ import os
 
 from ..kits import KITS
 from ..pools import pick, subset
-from .. import gen_im, gen_mf
+from .. import gen_im, gen_mf, pools
 
 ID = "C05"
 LEVEL = "exploration"
@@ -132,6 +132,11 @@ def generate(rng, tier, idx):
         K = kit.content(rng, tier)
         ops = kit.build(K, rng)
         down = {"op": "ti_downgrade", "path": kit.path, "version": pick(rng, ["1.1", "1.0", "0.3", "0.3", "0.0"])}
+        if rng.random() < 0.2:
+            # an older file gives its digests without naming the algorithm: the reader goes by their length
+            for k in range(rng.randint(1, 3)):
+                ops.append({"op": "ti_checksum_add", "path": "images/old%d.img" % k, "ctype": pick(rng, ["md5", "sha1", "sha256"]), "value": pools.hexstr(rng, 64)})
+            down = {"op": "ti_bare_digests", "path": kit.path, "plan": [pick(rng, ["bare32", "bare40", "bare64", "keep"]) for _ in range(rng.randint(1, 4))]}
     ops.append(kit.dump_op(K, rng))
     ops.append(down)
     if kit.machine != "M-TI" and rng.random() < 0.3:
